@@ -121,6 +121,26 @@ def reshape_failure_cases(
             )[["failure_case", "index"]]
             .reset_index(drop=True)
         )
+    elif (
+        isinstance(failure_cases, pd.DataFrame)
+        and len(failure_cases.columns) > 0
+        and not failure_cases.index.is_unique
+    ):
+        # unstack() cannot reshape a frame whose index labels repeat: lay the
+        # cells out in the same column-major order by hand
+        n_rows, n_cols = failure_cases.shape
+        reshaped_failure_cases = pd.DataFrame(
+            {
+                "column": failure_cases.columns.repeat(n_rows),
+                "index": failure_cases.index.append(
+                    [failure_cases.index] * (n_cols - 1)
+                ),
+                "failure_case": pd.concat(
+                    [failure_cases.iloc[:, i] for i in range(n_cols)],
+                    ignore_index=True,
+                ),
+            }
+        )
     elif is_table(failure_cases):
         reshaped_failure_cases = failure_cases.unstack().reset_index()
         reshaped_failure_cases.columns = ["column", "index", "failure_case"]  # type: ignore[call-overload,assignment]  # noqa
